@@ -453,8 +453,28 @@ def normalize_body(stmts, param, file, hctx, depth=0):
         if isinstance(st, ast.Expr) and isinstance(st.value, ast.Call) and find_helper(st.value, hctx) is not None:
             out += inline_call(st.value, param, file, hctx, depth)
             continue
+        if isinstance(st, ast.If) and st.orelse:
+            # `if C: A.. else: raise X`  ==  `if not C: raise X` ; A..      (and `if C: raise X else: B..` == clause ; B..)
+            # only as the LAST statement of its block, so that splicing the surviving branch keeps the control flow
+            if i != len(stmts) - 1:
+                raise TranslationError(file, st, 'if/else followed by further statements')
+            if len(st.orelse) == 1 and isinstance(st.orelse[0], ast.Raise):
+                test, rz, rest = _negate(st.test), st.orelse[0], st.body
+            elif len(st.body) == 1 and isinstance(st.body[0], ast.Raise):
+                test, rz, rest = st.test, st.body[0], st.orelse
+            else:
+                raise TranslationError(file, st, 'if/else in which neither branch is a single `raise`')
+            out.append(ast.fix_missing_locations(ast.copy_location(ast.If(test=test, body=[rz], orelse=[]), st)))
+            out += normalize_body(rest, param, file, hctx, depth)
+            continue
         out.append(st)
     return out
+
+
+def _negate(test):
+    if isinstance(test, ast.UnaryOp) and isinstance(test.op, ast.Not):
+        return test.operand
+    return ast.copy_location(ast.UnaryOp(op=ast.Not(), operand=test), test)
 
 
 def tr_setter(cls, fn, file, hctx=None):
@@ -487,9 +507,55 @@ def tr_setter(cls, fn, file, hctx=None):
 
 # ---------------------------------------------------------------- _build / _rebuild
 
+def _setattr_to_assign(st):
+    """`setattr(self, 'name', V)` as a statement is the assignment `self.name = V` (goes through the property)"""
+    if (isinstance(st, ast.Expr) and isinstance(st.value, ast.Call) and isinstance(st.value.func, ast.Name)
+            and st.value.func.id == 'setattr' and len(st.value.args) == 3 and not st.value.keywords
+            and isinstance(st.value.args[0], ast.Name) and st.value.args[0].id == 'self'
+            and isinstance(st.value.args[1], ast.Constant) and isinstance(st.value.args[1].value, str)
+            and st.value.args[1].value.isidentifier()):
+        tgt = ast.Attribute(value=ast.Name(id='self', ctx=ast.Load()), attr=st.value.args[1].value, ctx=ast.Store())
+        return ast.fix_missing_locations(ast.copy_location(ast.Assign(targets=[tgt], value=st.value.args[2]), st))
+    return st
+
+
+def normalize_build(stmts, file, fname):
+    """`for k in ('a', 'b'): BODY` over a literal of string constants is unrolled in the literal's order (k replaced by the
+    constant); `setattr(self, 'a', V)` becomes `self.a = V`; `if A and B: S` becomes `if A: if B: S`."""
+    out = []
+    for st in stmts:
+        if isinstance(st, ast.For):
+            lit = st.iter
+            if not (isinstance(lit, (ast.Tuple, ast.List)) and lit.elts and isinstance(st.target, ast.Name) and not st.orelse
+                    and all(isinstance(x, ast.Constant) and isinstance(x.value, str) for x in lit.elts)):
+                raise TranslationError(file, st, 'only `for name in (<string constants>)` loops are unrolled in %s' % fname)
+            var = st.target.id
+            for n in ast.walk(ast.Module(body=st.body, type_ignores=[])):
+                if isinstance(n, (ast.Break, ast.Continue, ast.Return, ast.For, ast.While)) or \
+                        (isinstance(n, ast.Name) and n.id == var and not isinstance(n.ctx, ast.Load)):
+                    raise TranslationError(file, st, 'loop body rebinds `%s` or leaves the loop early in %s' % (var, fname))
+            for c in lit.elts:
+                body = [_subst({var: c}, x) for x in st.body]
+                out += normalize_build(body, file, fname)
+            continue
+        st = _setattr_to_assign(st)
+        if isinstance(st, ast.If):
+            st = copy.deepcopy(st)
+            if isinstance(st.test, ast.BoolOp) and isinstance(st.test.op, ast.And) and not st.orelse:
+                inner = st.body
+                for t in reversed(st.test.values[1:]):
+                    inner = [ast.copy_location(ast.If(test=t, body=inner, orelse=[]), st)]
+                st = ast.copy_location(ast.If(test=st.test.values[0], body=inner, orelse=[]), st)
+            st.body = normalize_build(st.body, file, fname)
+            st.orelse = normalize_build(st.orelse, file, fname)
+            ast.fix_missing_locations(st)
+        out.append(st)
+    return out
+
+
 def tr_build(cls, fn, file):
     args = [a.arg for a in fn.args.args]
-    body = body_wo_doc(fn)
+    body = normalize_build(body_wo_doc(fn), file, fn.name)
     out = {'cls': cls, 'name': fn.name, 'file': file, 'line': fn.lineno, 'params': args[1:], 'items': [],
            'plain': [], 'dict': None, 'sets_built': False, 'sets_hyper': False}
 
@@ -531,13 +597,27 @@ def tr_build(cls, fn, file):
             return 'self.' + n.attr
         return None
 
+    def is_item(it):
+        return (isinstance(it, ast.If) and isinstance(it.test, ast.Compare) and len(it.test.ops) == 1
+                and isinstance(it.test.ops[0], ast.In) and dict_expr(it.test.comparators[0]) is not None)
+
     for st in body:
         if isinstance(st, ast.If):
-            d = dict_expr(st.test)
-            if d is None or st.orelse or out['dict'] is not None:
-                raise TranslationError(file, st, 'unsupported `if` in %s' % fn.name)
+            if is_item(st):
+                # `if 'k' in D:` without the enclosing `if D:` -- the same once D went through the `hyperparams` setter
+                d = dict_expr(st.test.comparators[0])
+                if not (d == 'self.hyperparams' or out['sets_hyper']):
+                    raise TranslationError(file, st, 'key test on a dictionary that was not validated first in %s' % fn.name)
+                blk = [st]
+            else:
+                d = dict_expr(st.test)
+                blk = st.body
+                if d is None or st.orelse:
+                    raise TranslationError(file, st, 'unsupported `if` in %s' % fn.name)
+            if out['dict'] is not None and out['dict'] != d:
+                raise TranslationError(file, st, 'two different dictionaries in %s' % fn.name)
             out['dict'] = d
-            for it in st.body:
+            for it in blk:
                 ok = (isinstance(it, ast.If) and not it.orelse and len(it.body) == 1
                       and isinstance(it.test, ast.Compare) and len(it.test.ops) == 1 and isinstance(it.test.ops[0], ast.In)
                       and isinstance(it.test.left, ast.Constant) and isinstance(it.test.left.value, str)
